@@ -129,6 +129,14 @@ pub trait Subject: Send + Sync {
 	fn from_json(&self, s: &str) -> Result<Box<dyn Subject>, String>;
 	/// snapshot + restore through the lossless token format (positional = bincode-like, else named)
 	fn via_tokens(&self, positional: bool) -> Result<Box<dyn Subject>, String>;
+	fn as_any(&self) -> Option<&dyn std::any::Any> {
+		None
+	}
+	/// `Clone::clone_from` of the wrapped instance (`self` is overwritten with `src`'s state, its buffers may
+	/// be re-used); false when `src` wraps another type
+	fn clone_from_subject(&mut self, _src: &dyn Subject) -> bool {
+		false
+	}
 }
 impl Clone for Box<dyn Subject> {
 	fn clone(&self) -> Self {
@@ -204,6 +212,18 @@ where
 		let toks = snapshot(&self.m, fl);
 		let m: M = restore(&toks, fl).map_err(|e| format!("{e} (snapshot of {} tokens)", toks.len()))?;
 		Ok(Box::new(W { m, next: self.next.clone(), peek: self.peek.clone() }))
+	}
+	fn as_any(&self) -> Option<&dyn std::any::Any> {
+		Some(self)
+	}
+	fn clone_from_subject(&mut self, src: &dyn Subject) -> bool {
+		match src.as_any().and_then(|a| a.downcast_ref::<Self>()) {
+			Some(s) => {
+				self.m.clone_from(&s.m);
+				true
+			}
+			None => false,
+		}
 	}
 }
 
